@@ -468,6 +468,7 @@ func (r *Raft) setupLeaderState() {
 // the leaderLoop for the hot loop.
 func (r *Raft) runLeader() {
 	r.logger.Info("entering leader state", "leader", r)
+	verifHook("leader.enter", r, r.getCurrentTerm(), r.getLastIndex(), 0, 0)
 	metrics.IncrCounter([]string{"raft", "state", "leader"}, 1)
 
 	// Notify that we are the leader
@@ -543,6 +544,7 @@ func (r *Raft) runLeader() {
 		}
 		r.leaderLock.Unlock()
 
+		verifHook("leader.exit", r, r.getCurrentTerm(), 0, 0, 0)
 		// Notify that we are not the leader
 		overrideNotifyBool(r.leaderCh, false)
 
@@ -788,6 +790,7 @@ func (r *Raft) leaderLoop() {
 			// Process the newly committed entries
 			oldCommitIndex := r.getCommitIndex()
 			commitIndex := r.leaderState.commitment.getCommitIndex()
+			verifHook("commit.leader", r, oldCommitIndex, commitIndex, r.leaderState.commitment.startIndex, r.getCurrentTerm())
 			r.setCommitIndex(commitIndex)
 
 			// New configuration has been committed, set it as the committed
@@ -853,6 +856,7 @@ func (r *Raft) leaderLoop() {
 				r.verifyLeader(v)
 			} else if v.votes < v.quorumSize {
 				// Early return, means there must be a new leader
+				verifHook("verify.fail", r, uint64(v.votes), uint64(v.quorumSize), 0, 0)
 				r.logger.Warn("new leader elected, stepping down")
 				r.setState(Follower)
 				delete(r.leaderState.notify, v)
@@ -863,6 +867,7 @@ func (r *Raft) leaderLoop() {
 
 			} else {
 				// Quorum of members agree, we are still leader
+				verifHook("verify.ok", r, uint64(v.votes), uint64(v.quorumSize), r.getCurrentTerm(), 0)
 				delete(r.leaderState.notify, v)
 				for _, repl := range r.leaderState.replState {
 					repl.cleanNotify(v)
@@ -969,6 +974,7 @@ func (r *Raft) verifyLeader(v *verifyFuture) {
 
 	// Set the quorum size, hot-path for single node
 	v.quorumSize = r.quorumSize()
+	verifHook("verify.start", r, uint64(v.quorumSize), r.getCurrentTerm(), 0, 0)
 	if v.quorumSize == 1 {
 		v.respond(nil)
 		return
@@ -1075,6 +1081,7 @@ func (r *Raft) checkLeaderLease() time.Duration {
 	quorum := r.quorumSize()
 	if contacted < quorum {
 		r.logger.Warn("failed to contact quorum of nodes, stepping down")
+		verifHook("lease.stepdown", r, uint64(contacted), uint64(quorum), 0, 0)
 		r.setState(Follower)
 		metrics.IncrCounter([]string{"raft", "transition", "leader_lease_timeout"}, 1)
 	}
@@ -1104,6 +1111,7 @@ func (r *Raft) quorumSize() int {
 // block until complete.
 func (r *Raft) restoreUserSnapshot(meta *SnapshotMeta, reader io.Reader) error {
 	defer metrics.MeasureSince([]string{"raft", "restoreUserSnapshot"}, time.Now())
+	verifHook("userrestore.enter", r, r.configurations.latestIndex, r.configurations.committedIndex, r.getLastIndex(), meta.Index)
 
 	// Sanity check the version.
 	version := meta.Version
@@ -1195,6 +1203,7 @@ func (r *Raft) restoreUserSnapshot(meta *SnapshotMeta, reader io.Reader) error {
 	}
 
 	r.logger.Info("restored user snapshot", "index", lastIndex)
+	verifHook("userrestore.done", r, lastIndex, term, 0, 0)
 	return nil
 }
 
@@ -1202,6 +1211,7 @@ func (r *Raft) restoreUserSnapshot(meta *SnapshotMeta, reader io.Reader) error {
 // configuration entry to the log. This must only be called from the
 // main thread.
 func (r *Raft) appendConfigurationEntry(future *configurationChangeFuture) {
+	verifHook("config.append", r, r.getCommitIndex(), r.configurations.latestIndex, r.configurations.committedIndex, r.leaderState.commitment.startIndex)
 	configuration, err := nextConfiguration(r.configurations.latest, r.configurations.latestIndex, future.req)
 	if err != nil {
 		future.respond(err)
@@ -1275,6 +1285,7 @@ func (r *Raft) dispatchLogs(applyLogs []*logFuture) {
 		r.setState(Follower)
 		return
 	}
+	verifHook("dispatch", r, lastIndex-uint64(n)+1, lastIndex, term, 0)
 	r.leaderState.commitment.match(r.localID, lastIndex)
 
 	// Update the last log since it's on disk now
@@ -1358,6 +1369,7 @@ func (r *Raft) processLogs(index uint64, futures map[uint64]*logFuture) {
 		applyBatch(batch)
 	}
 
+	verifHook("applied", r, lastApplied, index, 0, 0)
 	// Update the lastApplied index and term
 	r.setLastApplied(index)
 }
@@ -1589,6 +1601,7 @@ func (r *Raft) appendEntries(rpc RPC, a *AppendEntriesRequest) {
 	if a.LeaderCommitIndex > 0 && a.LeaderCommitIndex > r.getCommitIndex() {
 		start := time.Now()
 		idx := min(a.LeaderCommitIndex, r.getLastIndex())
+		verifHook("commit.follower", r, r.getCommitIndex(), idx, r.getLastIndex(), a.Term)
 		r.setCommitIndex(idx)
 		if r.configurations.latestIndex <= idx {
 			r.setCommittedConfiguration(r.configurations.latest, r.configurations.latestIndex)
@@ -1950,6 +1963,7 @@ func (r *Raft) installSnapshot(rpc RPC, req *InstallSnapshotRequest) {
 		return
 	}
 
+	verifHook("install.applied", r, r.getLastApplied(), req.LastLogIndex, r.getCommitIndex(), 0)
 	// Update the lastApplied so we don't replay old logs
 	r.setLastApplied(req.LastLogIndex)
 
@@ -1971,6 +1985,7 @@ func (r *Raft) installSnapshot(rpc RPC, req *InstallSnapshotRequest) {
 	}
 
 	r.logger.Info("Installed remote snapshot")
+	verifHook("install.done", r, req.LastLogIndex, req.LastLogTerm, req.Term, 0)
 	resp.Success = true
 	r.setLastContact()
 }
@@ -2004,6 +2019,7 @@ func (r *Raft) electSelf() <-chan *voteResult {
 	newTerm := r.getCurrentTerm() + 1
 
 	r.setCurrentTerm(newTerm)
+	verifHook("elect", r, newTerm, 0, 0, 0)
 	// Construct the request
 	lastIdx, lastTerm := r.getLastEntry()
 	req := &RequestVoteRequest{
@@ -2151,17 +2167,21 @@ func (r *Raft) preElectSelf() <-chan *preVoteResult {
 
 // persistVote is used to persist our vote for safety.
 func (r *Raft) persistVote(term uint64, candidate []byte) error {
+	verifHook("vote.begin", r, term, 0, 0, 0)
 	if err := r.stable.SetUint64(keyLastVoteTerm, term); err != nil {
 		return err
 	}
+	verifHook("vote.mid", r, term, 0, 0, 0)
 	if err := r.stable.Set(keyLastVoteCand, candidate); err != nil {
 		return err
 	}
+	verifHook("vote.end", r, term, 0, 0, 0)
 	return nil
 }
 
 // setCurrentTerm is used to set the current term in a durable manner.
 func (r *Raft) setCurrentTerm(t uint64) {
+	verifHook("term", r, r.getCurrentTerm(), t, 0, 0)
 	// Persist to disk first
 	if err := r.stable.SetUint64(keyCurrentTerm, t); err != nil {
 		panic(fmt.Errorf("failed to save current term: %v", err))
@@ -2176,6 +2196,7 @@ func (r *Raft) setState(state RaftState) {
 	r.setLeader("", "")
 	oldState := r.getState()
 	r.raftState.setState(state)
+	verifHook("state", r, uint64(oldState), uint64(state), r.getCurrentTerm(), 0)
 	if oldState != state {
 		r.observe(state)
 	}
